@@ -118,6 +118,12 @@ def analyse(call):
         if turned or (moved and not on_pod):
             out.append(('pose', 'teleport.pose', f'teleport({action.name}) changed the pose of an agent not on a telepod: '
                         f'({y0},{x0},{o0}) -> ({y1},{x1},{o1})'))
+        elif moved and 0 <= y1 < h and 0 <= x1 < w:
+            # teleportation sends the agent to another telepod of the same colour, nowhere else
+            dest, src = pre.rows[y1][x1], pre.rows[y0][x0]
+            if not (isinstance(dest, Telepod) and dest.color == src.color):
+                out.append(('pose', 'teleport.destination', f'teleport({action.name}) sent the agent from the {src.color.name} telepod at '
+                            f'({y0},{x0}) to ({y1},{x1}), which holds {enc.eo(dest)} - not a telepod of that colour'))
     else:
         if moved or turned:
             out.append(('pose', f'{fn}.pose', f'{fn}({action.name}) changed the pose ({y0},{x0},{o0}) -> ({y1},{x1},{o1})'))
